@@ -19,8 +19,10 @@ CONSTANTS N,           \* frames the sender hands to the link
           CloseAfter,  \* consecutive bad frames after which the reader closes (100 in the code)
           MaxFaults
 
-Ops == {"flip-hdr", "flip-body", "flip-mac", "flip-len", "truncate", "dup", "swap", "drop", "garbage-framed", "garbage-raw", "replay-late"}
+Ops == {"flip-hdr", "flip-body", "flip-mac", "flip-len", "truncate", "dup", "swap", "drop", "garbage-framed", "garbage-raw", "replay-late", "reflect"}
   \* replay-late: a copy of a frame is put on the wire again behind everything that is on the wire now
+  \* reflect: a link frame the RECEIVER sealed for the opposite direction of the same link is put in front of the unit: it is
+  \*          well framed and its sequence number is fresh, but the two directions have different keys - it must not unseal
 Breaks(op) == op \in {"flip-len", "truncate", "garbage-raw"}
 
 VARIABLES wire,      \* sequence of units still to be read: [id, intact, breaks]   (id 0 = garbage)
@@ -58,7 +60,7 @@ Fault(op, p) ==
                [] op = "swap" -> [wire EXCEPT ![p] = wire[p + 1], ![p + 1] = wire[p]]
                [] op = "replay-late" -> Append(wire, wire[p])
                [] op = "drop" -> SubSeq(wire, 1, p - 1) \o SubSeq(wire, p + 1, Len(wire))
-               [] op = "garbage-framed" -> SubSeq(wire, 1, p - 1) \o <<Garbage(FALSE)>> \o SubSeq(wire, p, Len(wire))
+               [] op \in {"garbage-framed", "reflect"} -> SubSeq(wire, 1, p - 1) \o <<Garbage(FALSE)>> \o SubSeq(wire, p, Len(wire))
                [] op = "garbage-raw" -> SubSeq(wire, 1, p - 1) \o <<Garbage(TRUE)>> \o SubSeq(wire, p, Len(wire))
   /\ faults' = faults + 1
   /\ act' = [name |-> "fault", op |-> op, at |-> wire[p].id, after |-> IF op = "replay-late" THEN wire[Len(wire)].id ELSE 0]
